@@ -80,6 +80,47 @@ partial def nestedIfExpS : Stmt → Nat
   | .other _ _ es bs => (es.map (nestedIfExpE false)).sum + (bs.map nestedIfExpS).sum
   | _ => 0
 
+/-- number of Call nodes in an expression -/
+partial def callsE : Expr → Nat
+  | .call _ f as ks => 1 + callsE f + (as.map callsE).sum + (ks.map callsE).sum
+  | .name .. | .const .. | .noneMarker => 0
+  | .attr _ v _ _ => callsE v
+  | .subscript _ v s _ => callsE v + callsE s
+  | .keyword _ _ _ v => callsE v
+  | .boolop _ _ vs => (vs.map callsE).sum
+  | .unary _ _ e => callsE e
+  | .binop _ _ l r => callsE l + callsE r
+  | .compare _ l _ rs => callsE l + (rs.map callsE).sum
+  | .ifexp _ t b e => callsE t + callsE b + callsE e
+  | .lambda _ a b => callsE a + callsE b
+  | .seq _ _ es _ => (es.map callsE).sum
+  | .starred _ v _ => callsE v
+  | .namedexpr _ t v => callsE t + callsE v
+  | .comp _ _ es gs => (es.map callsE).sum + (gs.map callsE).sum
+  | .comprehension _ t it ifs _ => callsE t + callsE it + (ifs.map callsE).sum
+  | .arguments _ a b c d e f g => ((a ++ b ++ c ++ d ++ e ++ f ++ g).map callsE).sum
+  | .arg _ _ an => (an.map callsE).sum
+  | .withitem _ c v => callsE c + (v.map callsE).sum
+  | .other _ _ _ ks => (ks.map callsE).sum
+
+/-- class predicate of known finding C04-directive-arg-call: number of calls inside the arguments of statements the
+directives converter resolves to a directive (annotation `static` of the callee) -/
+partial def directiveCallsS (staticOf : Nat → Option String) : Stmt → Nat
+  | .expr _ (.call _ f as ks) =>
+      match staticOf f.id with
+      | some "set_loop_options" | some "set_element_type" => (as.map callsE).sum + (ks.map callsE).sum
+      | _ => 0
+  | .functionDef _ _ _ b _ _ _ => (b.map (directiveCallsS staticOf)).sum
+  | .classDef _ _ _ _ b _ => (b.map (directiveCallsS staticOf)).sum
+  | .for_ _ _ _ b e _ _ => ((b ++ e).map (directiveCallsS staticOf)).sum
+  | .while_ _ _ b e => ((b ++ e).map (directiveCallsS staticOf)).sum
+  | .if_ _ _ b e => ((b ++ e).map (directiveCallsS staticOf)).sum
+  | .with_ _ _ b _ => (b.map (directiveCallsS staticOf)).sum
+  | .try_ _ b h e f => ((b ++ h ++ e ++ f).map (directiveCallsS staticOf)).sum
+  | .handler _ _ _ b => (b.map (directiveCallsS staticOf)).sum
+  | .other _ _ _ bs => (bs.map (directiveCallsS staticOf)).sum
+  | _ => 0
+
 def run (f : Option String) : String := f.getD "bad-args"
 
 def handlers : List (String × (List Sexp → String)) := [
@@ -149,6 +190,12 @@ def handlers : List (String × (List Sexp → String)) := [
       match ← root? r with
       | .stmt s => pure (toString (Sexp.list ((NoNative.offenders cfg [s]).map offSexp)))
       | .expr x => pure (toString (Sexp.list ((NoNative.offE cfg [] false .normal x).map offSexp)))),
+  ("c04.directive-calls", fun a => run do
+      let [r, an] := a | none
+      let t ← parseAnnoTable an
+      match ← root? r with
+      | .stmt s => pure (toString (directiveCallsS (fun i => t.str i "static") s))
+      | .expr _ => pure "0"),
   -- class predicate of the known finding: number of conditional expressions nested in one
   ("c04.nested-ifexp", fun a => run do
       let [r] := a | none
